@@ -302,6 +302,6 @@ def run_case(case, rec, ctx):
 
 META = {
     "technique": "differential runtime observation of pickle round trips (same process, protocols 2-5; fresh process with another hash seed) compared by ==, hash, srepr digests per attribute and numeric evaluation, over the introspected expression-class population and a model population",
-    "level_text": "Every instance of the 47 introspected expression classes (all argument shapes, harvested implementation nodes, a deprecated UnevaluatedExpression subclass) and a population of models (12 fixture/configuration pairs quick, all 70 fixtures thorough, plus synthetic reactions; configurations incl. stable/scalar masses, helicity couplings, three Breit-Wigner builders, axis-angle, DPD) is pickled and loaded in-process and in a fresh interpreter with a different PYTHONHASHSEED; equality, hash, srepr per attribute, dictionary order and numeric values (4 events) are compared.",
+    "level_text": "Every instance of the 47 introspected expression classes (all argument shapes, harvested implementation nodes, a deprecated UnevaluatedExpression subclass) and a population of models (12 fixture/configuration pairs quick, all 70 fixtures thorough, plus synthetic reactions; configurations incl. stable/scalar masses, helicity couplings, three Breit-Wigner builders, axis-angle, DPD) is pickled and loaded in-process and in a fresh interpreter with a different PYTHONHASHSEED; equality, hash, srepr per attribute, dictionary order and numeric values (4 events) are compared. The fresh process also reconstructs every loaded object bottom-up and requires equal hash and set membership; random instances, shaped array slices and the toy classes of C14 are included.",
     "level_note": "pickle itself, srepr faithfulness and qrules' ReactionInfo equality are trusted; models whose formulation raises are judged by C01/C05, not here.",
 }
